@@ -41,9 +41,9 @@ def _s(text, technique, ref):
 CHECKS = {
     'C01': _s("After every cycle of thousands of generated hostile histories the leaf recount of demand, the asked capacities, the reported free vector and both placement views are compared; held on the executions observed (counts in evidence).",
               "runtime monitoring: reference-model oracle (leaf recount vs asked capacity) after every cycle of generated histories", "DESIGN 2 C01"),
-    'C02': _s("Quiescent states reached by generated histories are probed in forked children; an independent leaf scan decides whether the probe fits and the real next cycle must place it.",
+    'C02': _s("Quiescent states reached by generated histories are probed in forked children; an independent leaf scan decides whether the probe fits and the real next cycle must place it (Master level: also probes into existing allocations; directed probes: a pending instance's application under other limit levels, a lease ending less than a second before the reboot). One known finding (tracker shape ignores limit levels) is listed in known_findings.json.",
               "runtime monitoring: forked probe cycles on quiescent cells vs independent leaf-scan oracle", "DESIGN 2 C02"),
-    'C03': _s("Every new assignment returned by schedule() and every placed instance after each cycle is checked against the harness record of server state, partition, traits and reboot time.",
+    'C03': _s("Every new assignment returned by schedule() and every placed instance after each cycle is checked against the harness record of server state, partition, traits and reboot time; at Master level the reboot-request task runs after every cycle (no request before the reboot time while a lease has not ended) and an acknowledged freeze must stay in force.",
               "runtime monitoring: per-assignment and per-cycle oracle over schedule() tuples vs harness record", "DESIGN 2 C03"),
     'C04': _s("After every cycle the per-node subtree recount of each affinity is compared with the declared limits and with the scheduler's own counters, under eviction/restore pressure.",
               "runtime monitoring: subtree recount invariant after every cycle", "DESIGN 2 C04"),
@@ -66,7 +66,7 @@ CHECKS['C10'] = dict(engine='master-zk', category='fault_enumeration', design_re
                      text="Every mutating ZooKeeper call of every init_schedule()/reschedule() of every generated history is a crash point (fork before it, plus one after the last): no double entry at the cut; a new master starts, republishes a placement equal to its model and passes its own integrity check.",
                      technique="runtime monitoring with fault injection: fork at every storage write, restart oracle in the child")
 CHECKS['C11'] = dict(engine='master-zk', category='exploration', design_ref='DESIGN 3 C11', note=_M_NOTE,
-                     text="After every completed cycle a forked child rebuilds the model with load_model() and it is compared with a reference computed from the stored state alone (healthy servers: presence ctime <= entry ctime, recorded instances fit).",
+                     text="After every completed cycle a forked child rebuilds the model with load_model() and it is compared with a reference computed from the stored state alone (healthy servers: presence ctime <= entry ctime, recorded instances fit); also with the successor's clock behind, a record removed by another writer between listing and read, a fail-over right after a pod left the cell, and a standby started through Master.run().",
                      technique="runtime monitoring: forked restart after every cycle vs reference computed from the stored state")
 CHECKS['C19'] = dict(engine='api-ldapfake', category='exploration', design_ref='DESIGN 5 C19',
                      note="Trusted base: in-memory directory under the real treadmill.admin._ldap.Admin (wire operations only are replaced) in one case of three, in the other two real ldap3 connections on ldap3's MOCK_SYNC directory under the unmodified Admin; the harness mirror of stored reservations and its own unit parser; schema-invalid requests are outside the domain.",
